@@ -333,6 +333,17 @@ def rule_block_guard(ctx, fx, config, breaks, prop):
                   "the `%s` block header is written only after a guard rejected every non-LF control character in the body" % ch,
                   "a `%s` block scalar can be emitted although its body contains a carriage return / control character: the body is written raw and split on \\n only, but the parser also breaks lines on %s" % (ch, sorted(map(repr, breaks - {"\n"}))),
                   config, ctx.where(f, hb))
+    # ... and never inside a flow collection (block scalars do not exist there: `[|` reads back as text)
+    flow_cmp = []
+    for c in compares(f):
+        if "self.in_flow" in (c["rl"], c["rr"]) and "0" in (c["rl"], c["rr"]):
+            inflow = c["t"] if c["op"] in ("Gt", "Ne") else (c["f"] if c["op"] in ("Eq", "Le") else None)
+            if inflow is not None:
+                flow_cmp.append((c["block"], inflow))
+    for hb, ch in headers:
+        okf = any(f.dominates(cb, hb) and hb not in f.reachable([e]) for cb, e in flow_cmp)
+        ctx.check(okf, "BLOCK", "%s:BLOCK:not-in-flow:%s" % (prop, "literal" if ch == "|" else "folded"), "the `%s` block header is never written inside a flow collection" % ch,
+                  "a `%s` block scalar can be emitted while in_flow > 0: inside `[..]` / `{..}` the header is read as text (`[|\\n  a\\n]` -> \"| a\")" % ch, config, ctx.where(f, hb))
     for gb, gt, gf, g in guards:
         exempt = char_consts(g)
         ctx.check(not ((breaks - {"\n"}) & exempt), "BLOCK", "%s:BLOCK:guard-exempts-only-lf" % prop, "the guard exempts only %s" % sorted(map(repr, exempt)),
